@@ -73,6 +73,9 @@ def expected_place(family, automatic, default):
 
 def gen_insert(eng, rng, n, target="main"):
     fam = rng.weighted([(f, 3) for f in STD_FAMILIES[:8]] + [(f, 1) for f in STD_FAMILIES[8:]] + [(f, 1.5) for f in XML_FAMILIES], "family")
+    focus = eng.cfg.get("focus_families")
+    if focus and rng.chance(0.7, "focus?"):
+        fam = rng.choice(focus, "focusfam")
     op = {"op": "ins_style", "family": fam, "n": n, "target": target}
     kind = rng.weighted([("common", 5), ("automatic", 5), ("default", 1.5)], "skind")
     if fam in XML_FAMILIES:
